@@ -212,7 +212,15 @@ func runHistoryOracles(prop string, c *sx, hist string, st *oracleStats, add fun
 				sawErr = true
 				st.Dist["error-replies"]++
 				if excluded {
-					st.Dist["excluded:projection-in-session"]++
+					// known finding: a failing projection of a find-one-and-modify routed to an
+					// open session transaction leaves the write in that transaction
+					st.Dist["projection-in-session"]++
+					if v := a.sessionViews(); v != beforeViews {
+						add("C02:projection-error-in-session-keeps-write", "find-one-and-modify with a failing projection inside an explicit session transaction reports an error but keeps the write in the open transaction", hist, i, reply)
+					}
+					if afterDump != beforeDump {
+						add("C02:error-changed-committed-state:"+op, "a call that reported an error changed the committed database", hist, i, reply)
+					}
 				} else {
 					if afterDump != beforeDump {
 						add("C02:error-changed-committed-state:"+op, "a call that reported an error changed the committed database", hist, i, reply)
